@@ -68,8 +68,8 @@ def extract(gen):
 
 def declared_skips(grammar_text):
     """Token names of the grammar's `skip` declarations (symbols are resolved through `token`)."""
-    g = re.sub(r"//[^\n]*", "", grammar_text)
-    g = re.sub(r"/\*.*?\*/", "", g, flags=re.S)
+    # comments out, but not what looks like a comment start inside a quoted symbol (lua: SlashSlash='//')
+    g = re.sub(r"('(?:[^'\\\n]|\\.)*')|//[^\n]*|/\*.*?\*/", lambda m: m.group(1) or " ", grammar_text, flags=re.S)
     sym = dict((s, n) for n, s in re.findall(r"\b([A-Z]\w*)\s*=\s*('(?:[^'\\]|\\.)*')", g))
     # replace every quoted symbol by a placeholder so that `;` and keywords inside quotes do not count
     lits = []
@@ -88,6 +88,18 @@ def declared_skips(grammar_text):
             n = sym.get(lits[int(m.group(1))]) if m else it
             if n and re.fullmatch(r"[A-Za-z_]\w*", n) and n not in names:
                 names.append(n)
+    return names
+
+
+def declared_tokens(grammar_text):
+    """Names of the grammar's `token` declarations (for a sanity check of the reader above)."""
+    g = re.sub(r"('(?:[^'\\\n]|\\.)*')|//[^\n]*|/\*.*?\*/", lambda m: " ' " if m.group(1) else " ", grammar_text, flags=re.S)
+    names = set()
+    for stmt in g.split(";"):
+        w = stmt.replace("=", " = ").split()
+        if not w or w[0] != "token":
+            continue
+        names |= set(x for x in w[1:] if re.fullmatch(r"[A-Za-z_]\w*", x))
     return names
 
 
